@@ -151,3 +151,38 @@ pub fn run(short: bool) -> Result<serde_json::Value, String> {
     let _ = Summary::clone;
     Ok(serde_json::Value::Array(report))
 }
+
+pub fn bench() {
+    // hand-off cost: two threads alternating (every step preempts) is the worst case; bound 0 = no switches
+    for (name, n) in [("2 threads x 2000 steps, no switches", 2000u64)] {
+        let s = scen(name, Opts::default(), vec![
+            th("a", move |s| { for _ in 0..n { s.x.fetch_add(1, Ordering::SeqCst); } }),
+            th("b", move |s| { for _ in 0..n { s.y.fetch_add(1, Ordering::SeqCst); } }),
+        ], |_| 0);
+        let t = std::time::Instant::now();
+        let mut steps = 0;
+        for _ in 0..50 { steps += sched::run_one(&s, &[], false).steps; }
+        eprintln!("{}: {} steps in {:?} => {:.2} us/step (in-process, 50 executions)", name, steps, t.elapsed(), t.elapsed().as_secs_f64() * 1e6 / steps as f64);
+    }
+    // alternating: choice vector that switches at every decision
+    let n = 300u64;
+    let s = scen("alternate", Opts::default(), vec![
+        th("a", move |s| { for _ in 0..n { s.x.fetch_add(1, Ordering::SeqCst); } }),
+        th("b", move |s| { for _ in 0..n { s.y.fetch_add(1, Ordering::SeqCst); } }),
+    ], |_| 0);
+    let choices: Vec<u32> = (0..(2 * n as usize)).map(|_| 1).collect();
+    let t = std::time::Instant::now();
+    let mut steps = 0;
+    let mut sw = 0;
+    for _ in 0..50 { let o = sched::run_one(&s, &choices, false); steps += o.steps; sw += o.switches; }
+    eprintln!("alternating: {} steps {} switches in {:?} => {:.2} us/step", steps, sw, t.elapsed(), t.elapsed().as_secs_f64() * 1e6 / steps as f64);
+    // empty executions: spawn cost
+    let s = scen("spawn", Opts::default(), vec![
+        th("a", move |s| { s.x.fetch_add(1, Ordering::SeqCst); }),
+        th("b", move |s| { s.y.fetch_add(1, Ordering::SeqCst); }),
+        th("c", move |s| { s.y.fetch_add(1, Ordering::SeqCst); }),
+    ], |_| 0);
+    let t = std::time::Instant::now();
+    for _ in 0..2000 { sched::run_one(&s, &[], false); }
+    eprintln!("3-thread trivial execution: {:.1} us each", t.elapsed().as_secs_f64() * 1e6 / 2000.0);
+}
